@@ -1,11 +1,11 @@
 /-
   Lungo.Proofs.SeqInsert — C01: the uniqueness check of the implementation (index entries, `hasKey`)
-  against the Spec's declarative condition on documents (`admit`, `clashes`), and the refinement of
+  against the Spec's declarative condition on documents (`admits`, `clashes`), and the refinement of
   insertOne / insertMany.
 -/
 import Lungo.Proofs.SeqReads
 import Lungo.Proofs.IndexCat
-namespace Lungo.C01
+namespace Lungo.SeqRef
 open Lungo Lungo.Spec
 
 variable {sch : SchemaEval}
@@ -72,17 +72,17 @@ theorem add_eq {docs : List SDoc} {i : Index} {sd : SDoc} (hc : IndexCoherent sc
             | false => simp
             | true => exact absurd ⟨hu, hb, hcl⟩ hno
 
-/-- **the uniqueness check refines the Spec's `admit`**: adding a fresh document to all indexes
-    succeeds, or fails with the same error, exactly as `admit` says on the plain documents -/
-theorem addToIndexes_admit {docs : List SDoc} {sd : SDoc}
+/-- **the uniqueness check refines the Spec's `admits`**: adding a fresh document to all indexes
+    succeeds, or fails with the same error, exactly as `admits` says on the plain documents -/
+theorem addToIndexes_admits {docs : List SDoc} {sd : SDoc}
     (hfresh : ∀ x ∈ docs, x.id ≠ sd.id) (hinj : IdInj (· ∈ docs)) (hok : DocsOk docs) (hsd : DocOk sd.doc) :
     ∀ (idx : List (String × Index)), AllCoherent sch (· ∈ docs) idx →
-      (addToIndexes sch sd idx).map (fun _ => ()) = admit sch (docs.map (·.doc)) sd.doc (shape idx)
+      (addToIndexes sch sd idx).map (fun _ => ()) = admits sch (docs.map (·.doc)) sd.doc (shape idx)
   | [], _ => rfl
   | (n, i) :: r, hc => by
-    have ih := addToIndexes_admit hfresh hinj hok hsd r (fun n i hm => hc n i (List.mem_cons_of_mem _ hm))
+    have ih := addToIndexes_admits hfresh hinj hok hsd r (fun n i hm => hc n i (List.mem_cons_of_mem _ hm))
     have ha := add_eq (hc n i (by simp)) hfresh hinj hok hsd
-    simp only [shape, List.map_cons, admit, addToIndexes]
+    simp only [shape, List.map_cons, admits, addToIndexes]
     rw [ha]
     cases hu : under sch i.config sd.doc with
     | error e => rfl
@@ -193,7 +193,7 @@ theorem insert_abs {c : Coll} {d : Doc} {nu : Nu} (hc : Coherent sch c) (hb : Id
     have he : ensureId d nu = .ok (d', { nu with oids := r }) := by rw [ensureId_genId, hg]; rfl
     rw [insert_unfold he]
     have hd' := (genId_ok hd ho hg).1
-    have := addToIndexes_admit (sch := sch) (sd := ⟨nu.nextId, d'⟩) (fun x hx => hb.fresh x hx)
+    have := addToIndexes_admits (sch := sch) (sd := ⟨nu.nextId, d'⟩) (fun x hx => hb.fresh x hx)
       (idInj_of_distinct hc.1) hok hd' c.indexes hc.2
     simp only [absC] at this ⊢
     rw [← this]
@@ -381,4 +381,4 @@ theorem refines_insertOne (s : Sys) (h : Handle) (doc : Doc) (oids : List V)
       | nil => rfl
       | cons d l => rfl
 
-end Lungo.C01
+end Lungo.SeqRef
